@@ -5,7 +5,7 @@ import asyncio
 
 from hypothesis import strategies as st
 
-from harness import scenario, vclock
+from harness import gen, scenario, vclock
 from harness.brokers import Env, reset_globals
 from harness.core import Check, Outcome, SubCheck
 
@@ -45,7 +45,7 @@ def limit_case(draw, brokers):
                 j["store_result"] = True
     if broker != "mem":
         case["lat"] = draw(st.lists(st.sampled_from([0.0, 0.001, 0.003]), max_size=20))
-    return case
+    return gen.host_dims(draw, case)
 
 
 def run(case: dict) -> Outcome:
